@@ -345,7 +345,7 @@ func TestFindUnprivileged(t *testing.T) {
 					}
 					if f := execFindPerm(base, c); f != nil && !seen[f.Sig] {
 						seen[f.Sig] = true
-						s.Violation("findperm", f.Sig, f.Msg, f.Size, c)
+						s.Violation("unpriv-find", f.Sig, f.Msg, f.Size, c)
 					}
 				}
 			}
@@ -490,7 +490,7 @@ func replayOther(t *testing.T, v ev.Violation, raw []byte) *rp.Fail {
 			t.Fatal(err)
 		}
 		return execForce(nil, newBox(t), c)
-	case "findperm":
+	case "unpriv-find":
 		var c PermCase
 		if err := json.Unmarshal(raw, &c); err != nil {
 			t.Fatal(err)
